@@ -296,3 +296,8 @@ func c11EmptyVersion(c *Ctx) {
 		c.R.Unk(rule, "(*sqlite.ChangesTable).Open: live table as 'from' only when fromVer is nil", c.P.Pos(co.Pos()), "cannot find where the live table is chosen as the diff base")
 	}
 }
+
+func init() {
+	byProp["C11"] = append(byProp["C11"], "C05.snapshot")
+	explain["C11"] += " snapshot (shared with C05): after a commit that failed the rollback restores the pre-transaction tree on every path, so the rows visible on the connection are the rows of the version s3db_version() names."
+}
